@@ -76,6 +76,7 @@ def replay(body):
 def run(ctx):
     rng = ctx.rng
     ctx.check_theorems()
+    ctx.check_generated(['blocks'])      # the number of crop buffers (hence the block structure) depends on the buffer itemsize
     # (K) argument of the logarithm: Prelog.prelog_code true <dtype> vs exp(log_scale(x)) and exp(log_scale_cropbufs_inplace(x))
     exprs, impl = [], []
     meta = []
@@ -117,18 +118,31 @@ def run(ctx):
     # (S) same pixel values in every dtype vs float64, both batch entry points
     nS = ctx.n(6, 60)
     found = False
-    for k in range(nS):
-        pattern, desc = cl.rand_pattern(rng, cmax=5, kinds=['Circular', 'RadialGradient', 'BackgroundSubtraction', 'RadialGradientBackgroundSubtraction'])
-        c = pattern.get_crop_size()
-        fy, fx = int(rng.integers(2 * c + 2, 40)), int(rng.integers(2 * c + 2, 40))
-        peaks = cl.rand_peaks(rng, fy, fx, c, int(rng.integers(1, 4)))
+    nBig = ctx.n(1, 4)
+    for k in range(nS + nBig):
+        if k < nS:
+            pattern, desc = cl.rand_pattern(rng, cmax=5, kinds=['Circular', 'RadialGradient', 'BackgroundSubtraction', 'RadialGradientBackgroundSubtraction'])
+            c = pattern.get_crop_size()
+            fy, fx = int(rng.integers(2 * c + 2, 40)), int(rng.integers(2 * c + 2, 40))
+            peaks = cl.rand_peaks(rng, fy, fx, c, int(rng.integers(1, 4)))
+        else:
+            # large windows and many peaks: the number of crop buffers depends on the buffer itemsize, i.e. on the frame dtype
+            # (float32 buffers: one block; float64 buffers: several blocks with a tail block)
+            c = int(rng.integers(30, 41))
+            desc = {'kind': 'Circular', 'radius': float(rng.integers(4, 9)), 'search': float(c), 'radius_outer': None}
+            pattern = cl.pattern_from_desc(desc)
+            fy, fx = int(rng.integers(2 * c + 20, 2 * c + 80)), int(rng.integers(2 * c + 20, 2 * c + 80))
+            b64 = blc.get_buf_count(c, 100, np.dtype('f8'))
+            npk = int(rng.integers(b64 + 1, 2 * b64))
+            peaks = [(int(rng.integers(c, fy - c)), int(rng.integers(c, fx - c))) for _ in range(npk)]
+            ctx.hist('blocks for float64 buffers / float32 buffers', '%d/%d' % (-(-npk // b64), -(-npk // blc.get_buf_count(c, npk, np.dtype('f4')))))
         for dt in DTYPES:
             ints = values_for(rng, dt, (fy, fx))
             # a few bright disks so that the maxima are well defined
             yy, xx = np.mgrid[0:fy, 0:fx]
             hi = int(ints.max())
             for p in peaks:
-                ints = np.where((yy - p[0]) ** 2 + (xx - p[1]) ** 2 <= max(1.0, (c / 2.0)) ** 2, hi, ints)
+                ints = np.where((yy - p[0]) ** 2 + (xx - p[1]) ** 2 <= max(1.0, (min(c, 8) / 2.0)) ** 2, hi, ints)
             fail = stmt_failure(desc, ints, peaks, dt)
             ctx.count(2 * len(peaks), key=(desc, fy, fx, peaks, dt))
             ctx.hist('dtype', dt)
@@ -148,4 +162,4 @@ def run(ctx):
         explanation='Theorem: with promotion before the subtraction the argument of the logarithm is exactly x-min+1 for every dtype; the un-promoted '
                     'integer arithmetic is refuted with witnesses (the repaired defect). Tie: the model argument vs exp() of what log_scale and '
                     'log_scale_cropbufs_inplace return for arrays containing the dtype extremes; oracle: both batch entry points for 10 dtypes vs float64.',
-        rule='values incl. dtype extremes for 8/16-bit types, +-2^24 for wider types; 10 dtypes; random patterns/shapes/peaks; distinct by (pattern, shape, peaks, dtype).')
+        rule='values incl. dtype extremes for 8/16-bit types, +-2^24 for wider types; 10 dtypes; random patterns/shapes/peaks, plus cases with crop size 30..40 and more peaks than float64 crop buffers (several blocks for wide dtypes, one for narrow ones); distinct by (pattern, shape, peaks, dtype).')
